@@ -268,6 +268,11 @@ func init() {
 					ws[j] = c.r.ASCII(1 + c.r.Intn(5))
 					ws[j] = strings.ReplaceAll(ws[j], " ", "x")
 				}
+				if c.r.Chance(0.15) {
+					// white space other than the blank inside a phrase: only the blank separates phrases
+					j := c.r.Intn(k)
+					ws[j] = ws[j] + c.r.Pick("\t", "\n", "\v", "\f", "\r") + c.r.Pick("x", "ab", "q1")
+				}
 				arg = strings.Join(ws, " ")
 				if c.r.Chance(0.1) {
 					arg = strings.Replace(arg, " ", "  ", 1)
